@@ -340,7 +340,7 @@ func (a *An) c19More() {
 	if f := a.MustFn("(*counterHistory).findCounterFor"); f != nil {
 		cnt := map[string]int{}
 		for _, cs := range a.CallSites(f) {
-			caller := a.C.Name(cs.Parent())
+			caller := a.C.Name(a.C.owner(cs.Parent()))
 			key := ordinalKey(caller+"|call findCounterFor", cnt)
 			if caller == "(*Conversation).genDataMsgWithFlag" {
 				args := cs.Common().Args
